@@ -30,7 +30,7 @@ REQUIRED_PROBES = {
             "loaded:pickle", "restart"],
     "C03": ["saved-with-secrets", "secret-decrypts-with-model-key", "secret-recovered-in-new-session", "set-keyfile:root", "set-keyfile:sub",
             "sub-configuration-adopted-from-other-tree:with-secret"],
-    "C06": ["set-rejected", "assign-map-rejected", "list-single-rejected", "dict-single-rejected", "unparsable-doc:cut", "unparsable-doc:wrong_root",
+    "C06": ["set-rejected", "assign-map-rejected", "list-single-rejected", "list-item-rejected-as-a-whole", "dict-single-rejected", "unparsable-doc:cut", "unparsable-doc:wrong_root",
             "torn-doc-still-parses", "load-io-failure:open-err", "include-unusable:missing", "include-unusable:torn", "include-unusable:open-err"],
     "C07": ["key-generated-in-run", "nested-enter", "enter:short:attempt2", "enter:valid:fault", "outermost-exit", "xor-full-key-recovered",
             "encrypt-closed", "restart"],
@@ -41,13 +41,15 @@ REQUIRED_PROBES = {
     "C11": ["validate-returned", "validate-raised", "valid-state-with-disabled-violations", "validator-fault-inside-", "validator-ran-on-final-data:schema",
             "list-append-config-returned", "retry-rejected-config-item", "collect-agrees:invalid"],
     "C12": ["callable-default-evaluated", "set-accepted", "set-rejected", "ctor-accepted", "assign-map-accepted"],
-    "C13": ["deep-mutation", "b2-compared", "dynamic-field-set", "container-assigned-from-"],
+    "C13": ["deep-mutation", "deep-mutation:untyped", "include-loaded:cfg0", "include-loaded:cfg1", "b2-compared", "dynamic-field-set",
+            "container-assigned-from-"],
     "C14": ["variable-in-effect:construct", "variable-in-effect:load", "assignment-over-variable", "load-with-bound-key",
             "construction-with-invalid-variable", "load-applied:empty-variable", "restart"],
     "C15": ["rejection:path-checked", "rejection:type-only", "set-config-list:rejected", "loads-json-rejected", "loads-xml-rejected"],
     "C16": ["names-checked", "parser-options-checked", "cmdline-applied", "cmdline-empty"],
     "C17": ["list-extend:iter", "list-extend:proxy-other-cfg", "list-slice-set:gen", "typed-result-validates:add", "typed-result-validates:copy"],
-    "C18": ["include-merged:2", "include-in-nested-scope", "include-unusable:torn", "combine", "chdir"],
+    "C18": ["include-merged:2", "include-in-nested-scope", "include-unusable:torn", "combine", "chdir", "schema-grown:sub-schema",
+            "schema-grown:include-field"],
     "C19": ["faulted-save:encode-fault", "faulted-save:encrypt-fault", "faulted-save:key-open-fault", "faulted-save:formatter-fault",
             "faulted-save:unknown-format", "faulted-save:key-short", "faulted-save:out-of-domain-value", "observed:write-phase-fault"],
 }
